@@ -172,6 +172,19 @@ def work(spec):
     except e1.NotModelled as ex:
         return dict(base, status="inconclusive", why="not modelled: %s" % ex)
     except e1.ModelError as ex:
+        import re
+        m = re.search(r"NameError: (\w+)_(\w+)$", str(ex))
+        isects = re.findall(r"name:\s*(\w+)\s*\n\s*class:\s*[Ii]ntersector", spec.get("arch") or "")
+        if m and m.group(1) in isects:
+            try:
+                e1.execute(text, spec, presence={k: True for k in e1.build_env(spec)[1]})
+                again = False
+            except e1.ModelError as ex2:
+                again = str(ex2) == str(ex)
+            return dict(base, status="violation", confirmed=again,
+                        why="intersector model %s_%s is fed or queried but was never created (%s)" % (m.group(1), m.group(2), ex),
+                        sig={"engine": "E1", "family": "metrics", "what": "intersector never created"},
+                        replay={"spec": spec, "text": text, "problems": [str(ex)]})
         return dict(base, status="inconclusive", why="program does not run on the model (C06/C11): %s" % ex)
     out = dict(base, events=len(rec.events), queries=q, obligations=q + 4, exec_s=time.time() - t0, solver_s=0.0)
     if problems:
